@@ -331,9 +331,10 @@ def check_reach_strategies(an, res):
             problems.append({"state": s, "problem": "player state without a strategy list", "got": repr(strat[s])})
             continue
         labels = [a for a, _ in tr]
-        # order / duplicates / unknown labels (independent of any tolerance)
-        pos = [labels.index(a) if a in labels else -1 for a in strat[s]]
-        if -1 in pos or pos != sorted(set(pos)):
+        # order / duplicates / unknown labels (independent of any tolerance): the list must be a subsequence of the state's labels
+        it = iter(labels)
+        is_subseq = all(any(a == b for b in it) for a in strat[s])
+        if not is_subseq:
             problems.append({"state": s, "problem": "strategy not a duplicate-free subsequence of the transition order",
                              "got": strat[s], "labels": labels})
             continue
@@ -363,17 +364,18 @@ def check_reach_strategies(an, res):
         if strat[s] == expected:
             continue
         got = strat[s]
-        extra = [a for a in got if a not in expected]
-        missing = [a for a in expected if a not in got]
         w = {"state": s, "owner": g.players[s], "got": got, "expected": expected,
              "exact_values": [str(val) for val in vals], "reported": [x[t] for _, t in tr]}
-        if not extra and got and missing:
-            listed_floats = {round(x[t], DIGITS) for (a, t) in tr if a in got}
-            omitted_differ = all(round(x[t], DIGITS) not in listed_floats for (a, t) in tr if a in missing)
-            if omitted_differ:
-                w["problem"] = "exact tie split: optimal action omitted because the converged floats round to different cells"
-                known.append(w)
-                continue
+        # open finding (by mechanism, position-wise so that repeated labels are handled): the solver lists exactly the transitions
+        # whose REPORTED value, rounded to 6 digits, is best; all of them are truly optimal; but at least one truly optimal
+        # transition is missing because its reported float rounds to another cell
+        rounded = [round(x[t], DIGITS) for _, t in tr]
+        best = max(rounded) if g.players[s] == P1 else min(rounded)
+        R = [i for i in range(len(tr)) if rounded[i] == best]
+        if got and [labels[i] for i in R] == got and all(vals[i] == opt for i in R) and any(vals[i] == opt and i not in R for i in range(len(tr))):
+            w["problem"] = "exact tie split: optimal action omitted because the converged floats round to different cells"
+            known.append(w)
+            continue
         w["problem"] = "reachability strategy is not the set of value-optimal actions"
         problems.append(w)
     return problems, known, stats
